@@ -197,7 +197,7 @@ pub fn intent_str(i: &Intent) -> String {
         Intent::Stop => "stop".into(),
         Intent::WaitBestmove => "<wait for bestmove>".into(),
         Intent::WaitPolls(n) => format!("<wait {n} polls>"),
-        Intent::Raw(l) => l.clone(),
+        Intent::Raw(l) | Intent::RawNow(l) => l.clone(),
         Intent::Quit => "quit".into(),
     }
 }
@@ -1673,9 +1673,17 @@ pub fn run_c12(ctx: &Ctx, run: u64) -> RunReport {
             if matches!(knobs.poll_interval, Some(1) | Some(7) | Some(50)) {
                 knobs.poll_interval = Some(1000);
             }
-            let sc = ScenarioA { script: vec![Intent::Raw("bench".into()), Intent::Quit], knobs, clock_events: ev, sched_seed: er.next_u64(), schedule: None };
+            // the second run may happen under load: another search is running on the search thread
+            // while `bench` searches on the input thread (node totals must not depend on that)
+            let script = if e == 1 && er.chance(1, 2) {
+                rep.agg.add("c12.bench_during_a_running_search", 1);
+                vec![Intent::Go(GoSpec::infinite()), Intent::WaitPolls(2), Intent::RawNow("bench".into()), Intent::Stop, Intent::Quit]
+            } else {
+                vec![Intent::Raw("bench".into()), Intent::Quit]
+            };
+            let sc = ScenarioA { script, knobs, clock_events: ev, sched_seed: er.next_u64(), schedule: None };
             let out = run_a(&sc, false);
-            let line = out.transcript.iter().find(|l| l.contains(" nodes ") && l.contains(" nps")).cloned().unwrap_or_default();
+            let line = out.transcript.iter().find(|l| !l.starts_with("info") && l.contains(" nodes ") && l.ends_with(" nps")).cloned().unwrap_or_default();
             totals.push(line.split_whitespace().next().unwrap_or("").to_string());
             absorb_a(ctx, &mut rep, &sc, &out, true);
         }
